@@ -446,6 +446,33 @@ def translator_validation(ck, tier, rnd):
     ck.extra["translator_validation"] = {"repo_test_cases": n_cases, "node_values_compared": n_vals}
 
 
+def _variants_chunk(ck, names):
+    """one worker: internal rules, once per structural parameter variant inside their validity period
+    (gt.param_variants: keys present, types, zero / non-zero of every parameter path the rule reads) -- covers
+    every date at which the rule can behave structurally differently, not only the fixed quick dates"""
+    rnd = random.Random(common.SEED)
+    done = set()
+    allf = gt.all_internal_functions()
+    n = 0
+    for fname in names:
+        f = allf[fname]
+        info = getattr(f, "__info__", {}) or {}
+        lo = max(info["start_date"], datetime.date(1985, 1, 1)) if info.get("start_date") else datetime.date(1985, 1, 1)
+        try:
+            vs = gt.param_variants(f, lo, info.get("end_date"), abstract=True)
+        except Exception as e:   # noqa: BLE001
+            ck.not_encoded[fname] = f"no parameter variants: {type(e).__name__}"
+            continue
+        name = info.get("name_in_dag", fname)
+        for lab, kw in vs:
+            date = datetime.date.fromisoformat(lab) if lab else gt.function_date_for(f)
+            P = {a[: -len("_params")]: v for a, v in kw.items()}
+            n += 1
+            analyse_rule(ck, name, f, P, date, done, rnd)
+    ck.extra["rule_x_parameter_variant"] = ck.extra.get("rule_x_parameter_variant", 0) + n
+    ck.extra["distinct_rule_terms"] = ck.extra.get("distinct_rule_terms", 0) + len(done)
+
+
 def run(tier):
     ck = common.Check("C03", tier)
     rnd = random.Random(common.SEED)
@@ -458,12 +485,17 @@ def run(tier):
         _dates_chunk(ck, chunks[0])
     else:
         common.run_parallel(ck, _dates_chunk, chunks)
+    # every internal rule once per structural parameter variant (all dates, not only the date classes above)
+    names = [n_ for n_, f_ in gt.all_internal_functions().items() if gt.is_rule(f_)]
+    common.run_parallel(ck, _variants_chunk, [names[i::common.JOBS] for i in range(common.JOBS) if names[i::common.JOBS]])
     n_rules = ck.extra.get("rule_instances", 0)
     done = range(ck.extra.get("distinct_rule_terms", 0))
     ck.bounds = {"date_classes": len(dates), "rule_instances": n_rules, "distinct_rule_terms": len(done),
                  "rows": "2 (first row fixes the dtype, second row carries the value)",
                  "range(n) unrolling": f"n <= {R.RANGE_FORK_LIMIT} (stated as assumption in the queries)",
-                 "window": "quick: 4 dates; thorough: one representative per distinct environment fingerprint 1980..last entry+1y"}
+                 "rule_x_parameter_variant": ck.extra.get("rule_x_parameter_variant", 0),
+                 "window": "quick: 4 dates; thorough: one representative per distinct environment fingerprint 1980..last entry+1y; both: every internal rule "
+                           "once per structural parameter variant (keys, types, zero/non-zero of the parameter paths it reads) within its validity from 1985"}
     ck.assumptions = validity.DESCRIPTION + ["rule arguments range over their annotated types within the documented ranges (any node can be supplied as a data column)"]
     ck.stubs = ["numpy.vectorize: element-wise call of pyfunc; dtype = otypes if set else dtype of the first row's result (numpy documented behaviour)"]
     ck.rule = "one obligation per (distinct symbolic rule term, claim); distinct by (claim, python function)"
